@@ -16,8 +16,12 @@ class BasicFifoRep:
         self.alloc = loc["allocator"]
         self.rdport = loc["data_rdport"]
         ts = hw.ts
-        self.midx = ts.memory_of(self.rdport.data)
-        self.rpk = ts.readport_key(self.rdport.data)
+        from amaranth import Value
+
+        self.zero_width = len(Value.cast(self.rdport.data)) == 0
+        if not self.zero_width:
+            self.midx = ts.memory_of(self.rdport.data)
+            self.rpk = ts.readport_key(self.rdport.data)
         self.depth = fifo.depth
 
     def rep(self, nxt):
@@ -26,6 +30,8 @@ class BasicFifoRep:
         a = self.alloc
         start = g(a.start_idx) if len(a.start_idx) else None
         end = g(a.end_idx) if len(a.end_idx) else None
+        if self.zero_width:
+            return start, end, g(a.allocated), None, None
         rows = ts.mem_next_rows[self.midx] if nxt else ts.mem_rows(self.midx)
         rp = ts.next[self.rpk] if nxt else ts.state[self.rpk]
         return start, end, g(a.allocated), rows, rp
@@ -36,11 +42,14 @@ class BasicFifoRep:
         c = [le(allocated, d)]
         if start is not None:
             c += [lt(start, d), lt(end, d), N(end) == nmod(N(start) + N(allocated), d)]
-        c.append(z3.Implies(N(allocated) != 0, rp == select(rows, N(start))))
+        if rows is not None:
+            c.append(z3.Implies(N(allocated) != 0, rp == select(rows, N(start))))
         return z3.And(*c)
 
     def view(self, nxt=False):
         start, end, allocated, rows, rp = self.rep(nxt)
+        if rows is None:
+            return Seq(N(allocated), [None] * self.depth)
         return Seq(N(allocated), [select(rows, nmod(N(start) + k, self.depth)) for k in range(self.depth)])
 
 
